@@ -104,6 +104,13 @@ def run(ctx: Ctx) -> None:
     plru_rule(ctx)
 
     perset_rule(ctx, "R10.perset")
+    # "blocks never accessed first, in index order": after a reset / reload the policy state is the initial one again -- both cache
+    # systems rebuild their cache (and with it one fresh policy object per set) instead of clearing it in place
+    from ..resetrule import check_reset
+    r = ctx.rule("R10.reset", "reset() rebuilds the caches, and with them every policy object")
+    check_reset(ctx, r, "BaseCacheMemorySystem", fields={"cache": "reconstruct", "memory": "delegate"})
+    check_reset(ctx, r, "InstructionMemoryCacheSystem", fields={"cache": "reconstruct", "instruction_memory": "delegate",
+                                                              "hits": "init", "accesses": "init", "last_was_hit": "init"})
 
 
 def perset_rule(ctx: Ctx, rid: str) -> None:
